@@ -1,1 +1,13 @@
--- property theorems for C12 (stub)
+/-
+C12 — PEG matching conforms to the PEG semantics.  Property theorems only.
+-/
+import JanetModel.Peg.Entry
+
+namespace JanetModel.Props.C12
+open JanetModel.Peg
+
+/-- The decoder reads, for every fixed-size opcode, exactly as many words as the bytecode verifier in
+    `peg_unmarshal` advances by (regenerated from the current peg.c). -/
+theorem decode_sizes_agree : JanetModel.Gen.Peg.opSizes = decodeSizes := by decide
+
+end JanetModel.Props.C12
